@@ -108,10 +108,6 @@ theorem keyed_timeout_error (cfg : Cfg) (b : Nat) (evs : List Ev) (p q : Trace) 
   have hl := (kinv_run cfg b evs).good p _ o q h
   exact ⟨fun hh => hl.1 hh.1 hh.2, hl.2⟩
 
-/-- outcomes never disappear -/
-theorem outcomes_mono (r : Nat) (a b : List Out) : outcomes r a ≤ outcomes r (a ++ b) := by
-  simp
-
 /-- **A response that arrives after its request was abandoned is never handed to a different
     request** — in fact to nobody: after the timer of request `r` (sent with identifier `c`)
     fired, a later message carrying `c` is not delivered to any caller. -/
@@ -148,15 +144,6 @@ theorem keyed_no_cross_after_timeout (cfg : Cfg) (b : Nat) (evs : List Ev) (p q1
   rcases (hr.2 hall).1 with ho | ho <;> rw [ho] at hd <;> simp at hd
 
 /-! ## plain HTTP: FIFO matching -/
-
-theorem exists_least (P : Nat → Prop) : ∀ n, P n → ∃ m, P m ∧ ∀ k, P k → m ≤ k := by
-  intro n
-  induction n using Nat.strongRecOn with
-  | _ n ih =>
-    intro hn
-    by_cases h : ∃ k, k < n ∧ P k
-    · obtain ⟨k, hk, hpk⟩ := h; exact ih k hk hpk
-    · exact ⟨n, hn, fun k hk => Nat.le_of_not_lt (fun hlt => h ⟨k, hlt, hk⟩)⟩
 
 /-- **A response goes to the oldest waiting request, or to nobody**: exactly one output per
     response; a delivery is to a request that is waiting and was sent before every other waiting
